@@ -99,16 +99,17 @@ fn states() -> Vec<(usize, u8, u16, u8)> {
     v
 }
 
-fn judge(rep: &mut Report, sig: String, rule: &str, w: &Word, expected: Option<Word>, accept_err: bool, nontrivial: bool) {
+/// `key` = the case in the form the replay takes (check, kind, mods, state); it is merged into every witness
+fn judge(rep: &mut Report, sig: String, rule: &str, w: &Word, expected: Option<Word>, accept_err: bool, nontrivial: bool, key: &Value) {
     rep.eval(1);
     if nontrivial { rep.nontrivial_enum(1); }
     let rules = match compile1(rule) {
         Ok(r) => r,
-        Err(Applied::Err(k)) => { if !accept_err { let r = rule.to_string(); rep.violation(format!("{sig}:rule-rejected"), || json!({"case": {"rule": r, "word": sw::render(w)}, "expected": "rule parses", "observed": k})); } return }
+        Err(Applied::Err(k)) => { if !accept_err { let r = rule.to_string(); rep.violation(format!("{sig}:rule-rejected"), || { let mut c = key.clone(); c["rule"] = json!(r); c["word"] = json!(sw::render(w)); json!({"case": c, "expected": "rule parses", "observed": k}) }); } return }
         Err(o) => { let r = rule.to_string(); rep.abort(o.tag(), || json!({"rule": r})); return }
     };
     let got = apply(&rules, w);
-    let case = || json!({"rule": rule, "word": sw::render(w), "word_struct": sw::dump(w)});
+    let case = || { let mut c = key.clone(); c["rule"] = json!(rule); c["word"] = json!(sw::render(w)); c["word_struct"] = json!(sw::dump(w)); c };
     match (&expected, got) {
         (Some(e), Applied::Ok(g)) => if g != *e { rep.violation(sig, || json!({"case": case(), "expected": sw::dump_json(e), "observed": sw::dump_json(&g)})); },
         (None, Applied::Ok(g)) => rep.violation(format!("{sig}:contradiction-not-reported"), || json!({"case": case(), "expected": "Err", "observed": sw::dump_json(&g)})),
@@ -122,6 +123,10 @@ fn st_name(l: usize, s: u8) -> String { format!("L{l}{}", ["U", "P", "S"][s as u
 fn one(rep: &mut Report, inv: &Inv, check: &str, kind: &str, m: &Mods, st: (usize, u8, u16, u8)) {
     let (l, s, t, posn) = st;
     let ms = m.text();
+    let mut mj = serde_json::Map::new();
+    for (v, n) in [(m.long, "long"), (m.over, "over"), (m.stress, "stress"), (m.sec, "sec")] { if let Some(b) = v { mj.insert(n.into(), json!(b)); } }
+    if let Some(tn) = m.tone { mj.insert("tone".into(), json!(tn)); }
+    let key = json!({"check": check, "kind": kind, "mods": mj, "state": [l, s, t, posn]});
     let solo = kind == "syl";
     let w = word(inv, inv.a, l, s, t, posn, solo);
     if check == "match" {
@@ -130,14 +135,14 @@ fn one(rep: &mut Report, inv: &Inv, check: &str, kind: &str, m: &Mods, st: (usiz
         let e = if !hit { w.clone() } else if solo { word(inv, inv.a, l, s, 9, posn, true) } else { word(inv, inv.a_nas, l, s, t, posn, false) };
         let sig = format!("match:{kind}:[{ms}]:{}", st_name(l, s));
         // a contradictory matcher may either match nothing or be reported as an error
-        judge(rep, sig, &rule, &w, Some(e), contradictory(m), hit);
+        judge(rep, sig, &rule, &w, Some(e), contradictory(m), hit, &key);
     } else {
         let rule = match kind { "ipa" => format!("a > [{ms}]"), "grp" => format!("V > [{ms}]"), "mat" => format!("[+low] > [{ms}]"), _ => format!("% > [{ms}]") };
         let exp = set_model(m, l, s, t);
         let e = exp.map(|(nl, ns, nt)| word(inv, inv.a, nl, ns, nt, posn, solo));
         let changed = exp.map(|x| x != (l, s, t)).unwrap_or(true);
         let sig = format!("set:{kind}:[{ms}]:{}", st_name(l, s));
-        judge(rep, sig, &rule, &w, e, false, changed);
+        judge(rep, sig, &rule, &w, e, false, changed, &key);
     }
 }
 
